@@ -775,30 +775,58 @@ impl<'a> Exec<'a> {
         Ok(())
     }
 
-    fn do_fork(&mut self, k: u8, burst: &[[u8; 3]]) -> Result<(), Panicked> {
-        self.p.forks += 1;
-        self.sig.b(0x31);
-        let m = &self.main;
-        let (lock, mut div, saved) = api(L::scanner_copy, || (*m, *m, *m))?;
-        let eq = api(L::scanner_eq, || lock.cc == m.cc && lock.pn == m.pn && lock.po == m.po)?;
-        self.sink.check(R::C17_copy, eq, || "a fresh copy does not compare equal to the original".into());
-        // divergent burst on one copy; the original must not move
+    /// Feeds `burst` (and polls the touched channels at the deadline) to `s`, collecting everything
+    /// it returns. Used to probe copies; clock: `at` for the feeds, `at + timeout` for the polls.
+    fn probe_copy(&self, s: &mut Scn, burst: &[[u8; 3]], at: Duration) -> Result<Vec<(Res3, Option<ParameterNumberMessage>)>, Panicked> {
+        let mut out = Vec::with_capacity(burst.len());
         for b in burst {
             if b[0] < 0x80 || b[1] > 127 || b[2] > 127 {
                 continue;
             }
+            clk::set_now(at);
             let raw = api(L::ingest_from_bytes, || RawShortMessage::from_bytes((b[0], U7::new(b[1]), U7::new(b[2]))))?;
             if let Ok(raw) = raw {
-                feed_scn(&mut div, &raw, *b, REPR_RAW)?;
+                let r = feed_scn(s, &raw, *b, REPR_RAW)?;
+                let mut polled = None;
                 if b[0] < 0xF0 {
                     let c = b[0] & 0x0F;
-                    api(L::polling_poll, || div.po.poll(Channel::new(c)))?;
+                    clk::set_now(at.saturating_add(self.timeout));
+                    polled = api(L::polling_poll, || s.po.poll(Channel::new(c)))?;
                 }
+                out.push((r, polled));
             }
         }
+        clk::set_now(self.now);
+        Ok(out)
+    }
+
+    fn do_fork(&mut self, k: u8, burst: &[[u8; 3]]) -> Result<(), Panicked> {
+        self.p.forks += 1;
+        self.sig.b(0x31);
+        let m = &self.main;
+        let (lock, mut div, saved, mut p1, mut p2) = api(L::scanner_copy, || (*m, *m, *m, *m, *m))?;
+        let eq = api(L::scanner_eq, || lock.cc == m.cc && lock.pn == m.pn && lock.po == m.po)?;
+        self.sink.check(R::C17_copy, eq, || "a fresh copy does not compare equal to the original".into());
+        // Independence of copies, behaviourally: probe copy p1 now; then drive the divergent copy
+        // (reversed burst, at a much later clock reading); then probe copy p2 exactly as p1 was
+        // probed. Whatever the divergent copy did must not show in p2 (hidden shared state would).
+        let r1 = self.probe_copy(&mut p1, burst, self.now);
+        clk::set_now(self.now);
+        let r1 = r1?;
+        let rev: Vec<[u8; 3]> = burst.iter().rev().copied().collect();
+        let later = self.now.saturating_add(self.timeout.saturating_mul(3)).saturating_add(Duration::from_secs(1));
+        let rd = self.probe_copy(&mut div, &rev, later);
+        clk::set_now(self.now);
+        rd?;
+        let r2 = self.probe_copy(&mut p2, burst, self.now);
+        clk::set_now(self.now);
+        let r2 = r2?;
+        let same = api(L::msg_eq, || r1 == r2)?;
+        let same_state = api(L::scanner_eq, || p1.cc == p2.cc && p1.pn == p2.pn && p1.po == p2.po)?;
+        self.sink.check(R::C17_copy, same && same_state, || format!("two copies of one scanner were fed the same burst {:02x?} at the same clock reading, a third copy was driven in between: results differ ({:?} vs {:?}) or end states differ (equal: {})", burst, r1, r2, same_state));
         let m = &self.main;
         let eq = api(L::scanner_eq, || saved.cc == m.cc && saved.pn == m.pn && saved.po == m.po)?;
-        self.sink.check(R::C17_copy, eq, || "feeding a copy changed the original".into());
+        self.sink.check(R::C17_copy, eq, || "feeding copies changed the original".into());
         if k > 0 && self.forks.len() < 4 {
             self.forks.push(Fork { copy: lock, remaining: k as usize });
         }
